@@ -134,7 +134,41 @@ func (c *Chan) Entry() (IteratorEntry, bool) {
 }
 
 func (c *Chan) Iter() Iterator {
-	return c
+	return &chanIter{Chan: c}
+}
+
+// chanIter is the state of one loop over a channel. Several goroutines may
+// iterate over the same channel at the same time, so the value most recently
+// received and the count belong to the loop, not to the channel.
+type chanIter struct {
+	*Chan
+	last  Object
+	count int64
+}
+
+func (it *chanIter) Next(ctx context.Context) (Object, bool) {
+	select {
+	case <-ctx.Done():
+		return nil, false
+	case value, ok := <-it.value:
+		if !ok {
+			return nil, false
+		}
+		it.last = value
+		it.count++
+		return value, true
+	}
+}
+
+func (it *chanIter) Entry() (IteratorEntry, bool) {
+	if it.last != nil {
+		return &Entry{
+			key:     NewInt(it.count - 1),
+			value:   it.last,
+			primary: it.last,
+		}, true
+	}
+	return nil, false
 }
 
 func (c *Chan) Send(ctx context.Context, value Object) (err error) {
